@@ -444,6 +444,73 @@ func encoderTouches(fn *ssa.Function, seen map[*ssa.Function]bool, depth int) []
 			return dd == recv.Name() || dd == recv.Name()+".jsonEncoder"
 		})
 	}
+	// reach: v is (a pointer, slice or map held in) a field of the shared receiver - a per-encoder scratch object is as
+	// shared as the encoder itself
+	var reach func(v ssa.Value, d int) bool
+	reach = func(v ssa.Value, d int) bool {
+		if d > 6 {
+			return false
+		}
+		switch x := v.(type) {
+		case *ssa.Parameter:
+			return x == recv
+		case *ssa.Field:
+			return reach(x.X, d+1)
+		case *ssa.FieldAddr:
+			return reach(x.X, d+1)
+		case *ssa.IndexAddr:
+			return reach(x.X, d+1)
+		case *ssa.Slice:
+			return reach(x.X, d+1)
+		case *ssa.UnOp:
+			if x.Op == token.MUL {
+				if al, ok := x.X.(*ssa.Alloc); ok {
+					// the spilled value receiver
+					if sv := singleStoreLoose(al); sv != nil {
+						return reach(sv, d+1)
+					}
+					return false
+				}
+				return reach(x.X, d+1)
+			}
+		case *ssa.Alloc:
+			// the spilled value receiver
+			if sv := singleStoreLoose(x); sv != nil {
+				return reach(sv, d+1)
+			}
+		case *ssa.MakeInterface:
+			return reach(x.X, d+1)
+		case *ssa.ChangeType:
+			return reach(x.X, d+1)
+		}
+		return false
+	}
+	// throughHeld: the address lies in an object reached by following a pointer/slice the receiver holds (not in the
+	// receiver's own by-value copy)
+	throughHeld := func(addr ssa.Value) bool {
+		v := addr
+		for k := 0; k < 8; k++ {
+			switch x := v.(type) {
+			case *ssa.FieldAddr:
+				v = x.X
+				continue
+			case *ssa.IndexAddr:
+				v = x.X
+				continue
+			case *ssa.Slice:
+				v = x.X
+				continue
+			case *ssa.UnOp:
+				if x.Op == token.MUL {
+					return reach(x.X, 0) || reach(x, 0)
+				}
+			case *ssa.Field:
+				return reach(x, 0)
+			}
+			return false
+		}
+		return false
+	}
 	var bad []string
 	for _, f := range WithClosures(fn) {
 		AllInstrs(f, func(i ssa.Instruction) {
@@ -452,6 +519,8 @@ func encoderTouches(fn *ssa.Function, seen map[*ssa.Function]bool, depth int) []
 				r := Root(x.Addr)
 				if r == ssa.Value(recv) {
 					bad = append(bad, fn.Name()+": store to "+Desc(x.Addr))
+				} else if throughHeld(x.Addr) {
+					bad = append(bad, fn.Name()+": store to "+Desc(x.Addr)+" (an object held by the shared encoder)")
 				}
 				if fv, ok := r.(*ssa.FreeVar); ok && fv.Name() == recv.Name() {
 					bad = append(bad, fn.Name()+": store to "+Desc(x.Addr)+" (closure)")
@@ -464,6 +533,16 @@ func encoderTouches(fn *ssa.Function, seen map[*ssa.Function]bool, depth int) []
 				args := Args(x)
 				if len(args) == 0 {
 					return
+				}
+				if x.Common().IsInvoke() || x.Common().StaticCallee() == nil {
+					// user code (sub-encoders, marshalers) given an object the shared encoder holds
+					for ai, a := range args {
+						if _, isPtr := types.Unalias(Strip(a).Type()).Underlying().(*types.Pointer); isPtr && reach(a, 0) && !(ai == 0 && x.Common().IsInvoke()) {
+							if n, _ := types.Unalias(deref(Strip(a).Type())).(*types.Named); n != nil && n.Obj().Pkg() != nil && strings.HasPrefix(n.Obj().Pkg().Path(), "go.uber.org/zap") && n.Obj().Name() != "EncoderConfig" {
+								bad = append(bad, fn.Name()+": "+Desc(a)+" (held by the shared encoder) is handed to code that writes into it")
+							}
+						}
+					}
 				}
 				d := Desc(args[0])
 				if (d == recv.Name()+".buf" || d == recv.Name()+".jsonEncoder.buf" || d == recv.Name()+".reflectBuf" || d == recv.Name()+".jsonEncoder.reflectBuf") && cf.Pkg() != nil && cf.Pkg().Path() == "go.uber.org/zap/buffer" {
